@@ -19,12 +19,17 @@ META = {
             'Function-entry granularity is used in one campaign to place the fork inside lock-free stretches too.',
 }
 
-FMT = '%{filename}|%{cmdline}|%{snoopy_threads}|%{username}'
+# every data source is evaluated (between the first four fields and the last two), every filter is consulted, stdin is a terminal:
+# a lock introduced anywhere on the logging path is seen by the scheduler (pthread_mutex_* of snoopy's sources are renamed)
+ALL = ('%{cgroup:name=systemd}%{cwd}%{datetime}%{domain}%{egid}%{egroup}%{env:A}%{env_all}%{euid}%{eusername}%{gid}%{group}%{hostname}%{ipaddr}%{login}%{pid}%{ppid}%{rpname}%{sid}'
+       '%{snoopy_configure_command}%{snoopy_literal:x}%{snoopy_version}%{systemd_unit_name}%{tid}%{tid_kernel}%{timestamp}%{timestamp_ms}%{timestamp_us}%{tty}%{tty_uid}%{tty_username}%{uid}')
+FMT = '%{filename}|%{cmdline}|%{snoopy_threads}|%{username}|%{snoopy_literal:Q}' + ALL.replace('|', '') + '%{snoopy_literal:Q}'
+CHAIN = 'exclude_spawns_of:zz,yy;exclude_uid:5;only_root;only_tty;only_uid:0;noop'
 
 
 def cfg_for(out):
     o = {'file': 'file:@W@/log', 'devlog': 'devlog', 'socket': 'socket:@W@/nosock', 'stdout': 'stdout', 'devnull': 'devnull'}[out]
-    return '[snoopy]\nmessage_format = ' + FMT + '\noutput = ' + o + '\n'
+    return '[snoopy]\nmessage_format = ' + FMT + '\nfilter_chain = ' + CHAIN + '\noutput = ' + o + '\n'
 
 
 def judge(x, k, out):
@@ -70,7 +75,7 @@ def judge(x, k, out):
         if len(lines) != len(want):
             bad.append('record_count_%d_expected_%d' % (len(lines), len(want)))
         for l in lines:
-            if not re.match(r'^[^|]+\|[^|]+\|[12]\|root$', l):
+            if not re.match(r'^[^|]+\|[^|]+\|[12]\|root\|Q[^|]*Q$', l):
                 bad.append('garbled_record')
         if x.log and not x.log.endswith(b'\n'):
             bad.append('partial_last_record')
@@ -110,7 +115,7 @@ def run(ck):
                 cnt[0] += 1
                 tl.w = os.path.join(ck.workdir, '%s-w%d' % (name, cnt[0]))
                 tl.name = name
-            return S.run_one(v['h_thr'], tl.w, cfg_for(out), 2, k, 'fork', prefix, san='asan', fn=fn, extra_args=[str(depth)], timeout=60)
+            return S.run_one(v['h_thr'], tl.w, cfg_for(out), 2, k, 'fork', prefix, san='asan', fn=fn, extra_args=[str(depth)], timeout=60, env_extra={'VS_STDIN_PTY': '1', 'A': 'a'})
 
         def check(x, k=k, out=out, name=name, bound=bound, depth=depth):
             bad = judge(x, k, out)
